@@ -53,7 +53,7 @@ CHECKS["C04"] = dict(
    design="4/C04")
 CHECKS["C05"] = dict(
    technique="grammar-based generation of nesting combinations executed in worker processes on 2 MiB threads (debug and release builds); limit search per construct; delta-reduction of failures",
-   text="Every single nesting construct is swept over depths 1..200 (limit must exist, no holes, <= 79 accepted) and 1.5k (quick) / 40k (thorough) multiplicative combinations are parsed, printed, debug-printed, cloned, dropped and deserialized on a 2 MiB thread in a debug and a release build: the worker must survive and any accepted document must have decoded depth <= 256; wide documents (79..600 shallow siblings of 14 kinds, then a construct nested 40 or 70 deep) must be accepted.",
+   text="Every single nesting construct is swept over depths 1..200 (limit must exist, no holes, <= 79 accepted) and 1.5k (quick) / 40k (thorough) multiplicative combinations are parsed, printed, debug-printed, cloned, dropped and deserialized on a 2 MiB thread in a debug and a release build: the worker must survive and any accepted document must have decoded depth <= 256; documents whose header path and whose key/value expression are each below the limit must be accepted; wide documents (79..600 shallow siblings of 14 kinds, then a construct nested 40 or 70 deep) must be accepted.",
    note="stack behaviour is that of this toolchain/platform (x86-64 Linux); the depth bound 256 is the harness' constant, above anything additive composition of per-construct limits of 80 can reach",
    design="4/C05")
 CHECKS["C11"] = dict(
@@ -68,7 +68,7 @@ CHECKS["C12"] = dict(
    design="4/C12")
 CHECKS["C06"] = dict(
    technique="tree-first generation built through generated API routes (proptest over choice tapes); print-parse round-trip against the built model under the stable-partition rule; purity (print twice / clone)",
-   text="100k (quick) / 2M (thorough) trees with adversarial keys and leaves are assembled through a generated mix of every construction route of toml_edit, converted between standard and inline form in both directions, and built as toml::Table/Value; the printed text must be valid (library and reference), decode to the same tree with the same order (values before tables as a stable partition; empty array of tables = absent) and be a pure function of the structure.",
+   text="100k (quick) / 2M (thorough) trees with adversarial keys and leaves are assembled through a generated mix of every construction route of toml_edit, converted between standard and inline form in both directions, given the dotted / implicit layout flags, and built as toml::Table/Value; the printed text must be valid (library and reference), decode to the same tree with the same order (values before tables as a stable partition; empty array of tables = absent) and be a pure function of the structure.",
    note="Item::None, raw decor setters, set_dotted/implicit/position and non-value items under value containers are excluded preconditions",
    design="4/C06")
 CHECKS["C16"] = dict(
